@@ -10,6 +10,7 @@ pub fn time_to_json(t: &TimeSpec) -> Value {
         TimeSpec::Dt(d) => json!({"dt":d}),
         TimeSpec::NextExpiry(d) => json!({"exp":d}),
         TimeSpec::Deadline(k, d) => json!({"dl":[k,d]}),
+        TimeSpec::BeforeSend(k, d) => json!({"before":[k,d]}),
     }
 }
 
@@ -18,6 +19,8 @@ pub fn time_from_json(v: &Value) -> TimeSpec {
         TimeSpec::Dt(d.as_u64().unwrap_or(0))
     } else if let Some(d) = v.get("exp") {
         TimeSpec::NextExpiry(d.as_i64().unwrap_or(0))
+    } else if let Some(d) = v.get("before") {
+        TimeSpec::BeforeSend(d[0].as_u64().unwrap_or(0) as usize, d[1].as_u64().unwrap_or(0))
     } else if let Some(d) = v.get("dl") {
         TimeSpec::Deadline(d[0].as_u64().unwrap_or(0) as usize, d[1].as_i64().unwrap_or(0))
     } else {
@@ -466,7 +469,13 @@ pub fn random_step(rng: &mut impl Rng, d: &Driver, profile: &str) -> Step {
                     msg.target = Target::Tx(rng.random_range(0..3));
                 }
             }
-            Step::Recv { at: small_dt(rng, d), msg }
+            // now and then the receive instant lies before the instant the request was sent at
+            let at = if !d.sent.is_empty() && rng.random_range(0..100) < 3 {
+                TimeSpec::BeforeSend(rng.random_range(0..3), *pick(rng, &[1u64, 1, 1000, 500_000]))
+            } else {
+                small_dt(rng, d)
+            };
+            Step::Recv { at, msg }
         }
     }
 }
